@@ -130,7 +130,10 @@ PROPS = {
                 "setting); the operation catalogue under random option settings is a bounded run-time check with the default-options "
                 "run as oracle.", trusted_base=COMMON_TRUSTED),
     "C17": dict(level="other", statics=[statics.module_state_obligations], contracts=["numpoly.multiply", "numpoly.derivative", "numpoly.poly_divmod", "numpoly.align_shape", "numpoly.align_exponents", "numpoly.greater", "numpoly.equal",
-                                          "numpoly.not_equal", "numpoly.lead_coefficient", "numpoly.lead_exponent"],
+                                          "numpoly.not_equal", "numpoly.lead_coefficient", "numpoly.lead_exponent",
+                                          "numpoly.any", "numpoly.all", "numpoly.count_nonzero", "numpoly.nonzero", "numpoly.true_divide",
+                                          "numpoly.floor_divide", "numpoly.array_repr.to_string", "numpoly.array_repr._to_string",
+                                          "numpoly.ndpoly.__getitem__", "numpoly.ndpoly.__iter__"],
                 explanation="Frame obligations: at every write statement of a function under contract the executor poses "
                 "'target region is fresh or a declared output', with regions tracked through views (.values columns, ravel). "
                 "Re-posed here for functions whose anchors the property names; byte-level snapshots of arguments around 82 public "
